@@ -57,7 +57,7 @@ func TestWorker(t *testing.T) {
 		RunCluster(t, cc, func(res *Result) {
 			out, _ := json.Marshal(res)
 			fmt.Printf("RESULT %s\n", out)
-			if job.EmitCase || res.Outcome == "violation" {
+			if job.EmitCase || res.Outcome == "violation" || res.Outcome == "inconclusive" {
 				x := *cc
 				x.Schedule = res.Schedule
 				cj, _ := json.Marshal(&x)
@@ -80,7 +80,7 @@ func TestWorker(t *testing.T) {
 	Run(t, c, func(res *Result) {
 		out, _ := json.Marshal(res)
 		fmt.Printf("RESULT %s\n", out)
-		if job.EmitCase || res.Outcome == "violation" {
+		if job.EmitCase || res.Outcome == "violation" || res.Outcome == "inconclusive" {
 			cc := *c
 			cc.Schedule = res.Schedule
 			cj, _ := json.Marshal(&cc)
